@@ -34,8 +34,9 @@ type PartSpec struct {
 	Grp     string `json:"grp"`             // "a": selected by the source condition, "b": not
 	Empty   bool   `json:"empty,omitempty"` // registered in the tag index, no data ever written
 	Batches [][]Ev `json:"batches,omitempty"`
-	Hold    int    `json:"hold,omitempty"` // 1: somebody holds the partition during the runs, 2: exclusively locked
-	Park    int    `json:"park,omitempty"` // > 0: a reader consumes that many events and is parked before the run
+	Hold    int    `json:"hold,omitempty"`    // 1: somebody holds the partition during the runs, 2: exclusively locked
+	Park    int    `json:"park,omitempty"`    // > 0: a reader consumes that many events and is parked before the run
+	ParkRng bool   `json:"parkrng,omitempty"` // the parked reader's query has a RANGE (covering everything): it reads through partition.JIterator and the chunk selector instead of the journal iterator
 }
 
 type Params struct {
@@ -361,6 +362,9 @@ func (r *runner) runCase(rp *Replay) (*outcome, error) {
 	for i, ps := range parts {
 		if ps.Park > 0 && ps.Park <= len(o.before[i].Events) {
 			q := &api.QueryRequest{Query: fmt.Sprintf("SELECT FROM vcase=%d AND p=%d", vc, i), Limit: ps.Park}
+			if ps.ParkRng {
+				q.Query += ` RANGE ["1":"100000000000"]`
+			}
 			res, err := r.query(q)
 			if err != nil {
 				return nil, err
